@@ -177,7 +177,7 @@ impl ProbeSpace {
         let h = |l: &[(&str, &str)]| -> Vec<(String, String)> { l.iter().map(|(a, b)| (a.to_string(), b.to_string())).collect() };
         ProbeSpace {
             schemes: vec![s("http"), s("https"), None, s("ftp")],
-            hosts: vec![s("a.example"), s("A.Example"), s("cat.example"), s("cow.example"), s("Cat.Example"), s("cat.Example"), s("shop-cat.example"), s("Shop-cat.example"), s("other.org"), None, s("cat.example.org")],
+            hosts: vec![s("a.example"), s("A.Example"), s("cat.example"), s("cow.example"), s("Cat.Example"), s("cat.Example"), s("shop-cat.example"), s("Shop-cat.example"), s("other.org"), None, s("cat.example.org"), s("cat.EXAMPLE")],
             ips: vec![
                 s("10.0.0.1"),
                 s("8.8.8.8"),
@@ -801,6 +801,9 @@ pub fn host_focus_universe() -> Vec<RuleSpec> {
         // a second rule on the LONGER host pattern: the tree then has to find an existing leaf whose pattern has a
         // sibling leaf (h1/h2/h7's pattern) as textual prefix
         mk("h8", "dyn host @h.example.org #2 (same bucket as the extending regex)", Some("@h.example.org"), Some(("h", "(cat|dog)")), "/b"),
+        // the same dynamic host written with another casing (one pattern when the host case is ignored, two otherwise)
+        mk("h9", "dyn host @h.EXAMPLE (other casing of h1's host)", Some("@h.EXAMPLE"), Some(("h", "(cat|dog)")), "/a"),
+        mk("h10", "dyn host @h.EXAMPLE #2 other path", Some("@h.EXAMPLE"), Some(("h", "(cat|dog)")), "/b"),
     ];
     for (i, r) in v.iter_mut().enumerate() {
         r.rank = (i + 1) as u16;
